@@ -178,7 +178,9 @@ def main():
 
     listed = {f["id"]: f for f in known_findings("C12")}
     kf = [listed.get(f["id"], f) for f in PROPOSED] + [f for i, f in listed.items() if i not in [p["id"] for p in PROPOSED]]
-    kf = [f for f in kf if f.get("witness") and f.get("class") in ("race", "panic", "store", "lin")]
+    repaired = fixed_finding_ids("C12")
+    repaired_kf = [f for f in kf if f["id"] in repaired and f.get("witness")]
+    kf = [f for f in kf if f.get("witness") and f.get("class") in ("race", "panic", "store", "lin") and f["id"] not in repaired]
     race_classes = [f for f in kf if f.get("class") == "race"]
     panic_classes = [f for f in kf if f.get("class") == "panic"]
     T = 20 if ck.thorough else 1
@@ -192,6 +194,11 @@ def main():
                 c = json.loads(json.dumps(f["witness"]))
                 c.update(state=st, cid="kf:%s:%s:%d" % (f["id"], st, r), finding=f["id"], group=c.get("group", "witness"))
                 cases.append(c)
+    for f in repaired_kf:
+        for st in ("indexed", "linear"):
+            c = json.loads(json.dumps(f["witness"]))
+            c.update(state=st, cid="fixed:%s:%s" % (f["id"], st), group=c.get("group", "witness"))
+            cases.append(c)
     nstress = 0
     for st in ("indexed", "linear"):
         for k, nops in ([(2, 120), (4, 100), (8, 60)] if not ck.thorough else [(k, 200) for k in range(2, 9)] * 3):
